@@ -158,9 +158,22 @@ func KeyshareResponse[T comparable](
 	keys map[T]*gabikeys.PublicKey,
 ) (*ProofP, error) {
 	// Sanity checks
+	if responseRequest.Nonce == nil || responseRequest.UserResponse == nil {
+		return nil, errors.New("missing nonce or response in response request")
+	}
 	for i, k := range responseRequest.UserChallengeInput {
 		if k.KeyID != nil && keys[*k.KeyID] == nil {
 			return nil, errors.Errorf("missing public key for element %d of challenge input", i)
+		}
+		// The numbers of the challenge input are residues: nonnegative. (The hash that was committed
+		// to is taken over their bytes, which do not show the sign.)
+		if k.Value == nil || k.Value.Sign() < 0 || k.Commitment == nil || k.Commitment.Sign() < 0 {
+			return nil, errors.Errorf("invalid value or commitment in element %d of challenge input", i)
+		}
+		for _, c := range k.OtherCommitments {
+			if c == nil || c.Sign() < 0 {
+				return nil, errors.Errorf("invalid commitment in element %d of challenge input", i)
+			}
 		}
 	}
 	if responseRequest.Context == nil {
